@@ -96,6 +96,21 @@ Theorem C51_unpack_canonical_word_partial : forall t w v,
 Proof. exact canonical_word. Qed.
 Print Assumptions C51_unpack_canonical_word_partial.
 
+(* a step towards whole inputs, under the canonical-offset hypothesis: a sole
+   bytes argument whose offset word is the canonical 32.  The input is accepted
+   whatever follows the l content bytes, and its re-encoding agrees with it on the
+   offset word, the length word and the content; only the bytes after the content
+   (the padding, and any trailing data) are not compared by the decoder. *)
+Theorem C51_unpack_canonical_bytes_partial : forall l rest,
+  0 <= l <= zlen rest -> zlen rest + 64 < 2 ^ 63 ->
+  let out := pack_num 32 ++ pack_num l ++ rest in
+  let c := firstn (Z.to_nat l) rest in
+  unpack_args [TBytes] out = Ok [VBytes c] /\
+  pack_args [TBytes] [VBytes c] =
+    Ok (pack_num 32 ++ pack_num l ++ c ++ zeros (Z.to_nat ((32 - l mod 32) mod 32))).
+Proof. exact canonical_bytes. Qed.
+Print Assumptions C51_unpack_canonical_bytes_partial.
+
 (* non-vacuity: nested dynamic/static types, a *big.Int width, negative numbers *)
 Example C51_nonvacuous :
   let ts := [TTuple [TUInt 24; TArray TString; TInt 64]; TFixedArray 2 TBool; TBytes] in
